@@ -312,7 +312,13 @@ func c04HookFailure(c *Ctx) {
 		c.Unk("C04.E1-hook-failure", "dagsync › per-publisher sync routine", token.NoPos, "not found")
 		return
 	}
-	syncs := c.Calls(h, Invoke("dagsync.Syncer.Sync"))
+	// (sync calls are also found inside unexported helpers of the routine; such a site stands where the helper is called)
+	var syncs []CallSite
+	for _, st := range c.CallsInl(h, Invoke("dagsync.Syncer.Sync"), 2) {
+		if o, ok := st.Outer().(ssa.CallInstruction); ok && o.Parent() == h {
+			syncs = append(syncs, CallSite{In: o, Fn: h, X: c.CallX(o)})
+		}
+	}
 	hookErr := Field("err", Any())
 	for _, b := range h.Blocks {
 		ret, ok := b.Instrs[len(b.Instrs)-1].(*ssa.Return)
